@@ -162,19 +162,20 @@ Section StaticModel.
   Definition s_pwant (pmin dp : F) (ntv : nat) : list F :=
     s_linspace (s_from_gpa pmin) (s_from_gpa (pmin + dp * s_ofnat (ntv - 1))) ntv.
 
-  (** line 99.  KNOWN DEFECT D9: the code passes v_array where f_array is meant, so the F column
-      repeats V.  This definition is the single place to switch when /repo is repaired:
-      replace the body by [fg]. *)
-  Definition s_pressure_F_source (vg fg : list F) : list F := vg.
+  (** line 99 (repaired in /repo commit ed06662):  _f_array = v2p1d(f_array, p_array, _p_array).
+      This definition is the single place that says which grid feeds the F column. *)
+  Definition s_pressure_F_source (vg fg : list F) : list F := fg.
 
   Definition s_mode_pressure (vg fg pg : list F) (pmin dp : F) (ntv : nat) : s_cols :=
     let want := s_pwant pmin dp ntv in
     (s_v2p1d vg pg want, s_v2p1d (s_pressure_F_source vg fg) pg want, want).
 
-  (** what the property asks for (used by the theorems only) *)
-  Definition s_mode_pressure_spec (vg fg pg : list F) (pmin dp : F) (ntv : nat) : s_cols :=
+  (** history: before the repair (defect D9) line 99 read  _f_array = v2p1d(v_array, p_array, _p_array),
+      so the F column repeated V.  Kept only for [columns_pressure_mode_refuted_before_fix]. *)
+  Definition s_pressure_F_source_old (vg fg : list F) : list F := vg.
+  Definition s_mode_pressure_old (vg fg pg : list F) (pmin dp : F) (ntv : nat) : s_cols :=
     let want := s_pwant pmin dp ntv in
-    (s_v2p1d vg pg want, s_v2p1d fg pg want, want).
+    (s_v2p1d vg pg want, s_v2p1d (s_pressure_F_source_old vg fg) pg want, want).
 
   Definition s_eos (mode : nat) (vols ens spl : list F) (ratio pmin dp : F) (ntv : nat) : s_cols :=
     let vg := s_vgrid vols ratio ntv in
